@@ -1,8 +1,9 @@
 """C04 — LP/QP interior point: `converged` means feasible and optimal as stated (DESIGN.md §4 C04).
 
 One op line = one (program, restatement) pair:
-  program solve <lp|qp> <n> <p> <m> <Q> <c> <A> <b> <G> <h> <x0mode> <x0> <rkind> <ri> <rf> <witness>
+  program solve <lp|qp> <n> <p> <m> <Q> <c> <A> <b> <G> <h> <x0mode> <x0> <pars> <rkind> <ri> <rf> <witness>
   matrices flat row-major; lists `len v1 .. vlen`, doubles as 16 hex digits; x0mode 0 = solve(program), 1 = solve(program, x0)
+  pars: empty = default solver parameters, or `s0 miu alpha beta epsilon epsilon0`
   rkind/ri/rf: the equivalent restatement the harness applies before calling the solver
      none | dupeq [i] | combeq t(p) | mixeq T(p*p) | scaleeq w(p) | scaleineq w(m) | scaleobj [k] | permvars perm(n) | permrows perm(p)+perm(m)
   witness: `opt <x*> <u*> <v*>` (KKT-constructed; verified in exact rational arithmetic by the oracle) or `enum`
@@ -14,6 +15,7 @@ import itertools, math, os
 from fractions import Fraction
 import vlib
 from vlib import Toks, f2h, h2f
+from props import c04_translate
 
 ID = "C04"
 LEVEL = "proof"
@@ -33,8 +35,10 @@ TRUSTED = [
     "Lean 4.33.0 kernel; Mathlib modules Mathlib.Algebra.Order.Field.Basic, Mathlib.Tactic.Ring/Linarith/Positivity/FieldSimp "
     "(only in Proofs/Program*.lean and Props/C04.lean)",
     "axioms: at most propext, Classical.choice, Quot.sound (audited per theorem on every run)",
-    "hand-written generic-scalar model NanoVerif/Model/Program.lean of src/program/solver.cpp (normalize, program_t::update, "
-    "program_t::feasible, make_smax, the two backtracking stages, the loop body, solver_t::done, solve_without_inequality) and "
+    "NanoVerif/Gen/ProgramDone.lean (program_t::feasible and the status decision of solver_t::done) is re-translated from "
+    "src/program/solver.cpp on every run by tools/props/c04_translate.py (boolean skeleton parsed, leaves from a fixed table)",
+    "hand-written generic-scalar model NanoVerif/Model/ProgramBase.lean + Program.lean of src/program/solver.cpp (normalize, "
+    "program_t::update, make_smax, the two backtracking stages, the loop body, solve_without_inequality) and "
     "src/program/state.cpp (residual); tied to the code by trace replay: harness/c04.cpp runs program::solver_t with the NANO_VERIF "
     "trace sink, driver_c04 recomputes every logged number and decision from the logged (x,u,v), (dx,du,dv) and the caller's program",
     "ORACLES of the model (never proved): Eigen LDLT (the Newton step and the KKT solve of the equality-only path), Eigen FullPivLU "
@@ -88,7 +92,8 @@ def fmt(c):
     wt = "enum" if w is None else "opt " + " ".join(flist(v) for v in w)
     return " ".join(["program solve", "lp" if c["Q"] is None else "qp", str(c["n"]), str(len(c["b"])), str(len(c["h"])),
                      flist(flat(c["Q"] or [])), flist(c["c"]), flist(flat(c["A"])), flist(c["b"]), flist(flat(c["G"])),
-                     flist(c["h"]), str(c["x0mode"]), flist(c["x0"] or []), c["rkind"], ilist(c["ri"]), flist(c["rf"]), wt])
+                     flist(c["h"]), str(c["x0mode"]), flist(c["x0"] or []), flist(c.get("pars") or []), c["rkind"], ilist(c["ri"]),
+                     flist(c["rf"]), wt])
 
 
 def chunk(v, n, k):
@@ -106,6 +111,7 @@ def parse(aug, want_trace=True):
     c["A"] = chunk(A, n, p); c["G"] = chunk(G, n, m)
     c["base_key"] = " ".join(t.t[2:t.i])
     c["x0mode"] = t.int(); c["x0"] = t.fs()
+    c["pars"] = t.fs()
     c["rkind"] = t.s(); c["ri"] = t.ints(); c["rf"] = t.fs()
     w = t.s()
     c["wit"] = None if w == "enum" else [t.fs(), t.fs(), t.fs()]
@@ -450,15 +456,20 @@ def oracle(aug, res):
     xs, fs = info[1], info[2] * kappa
     if perm is not None:
         xs = [xs[j] for j in perm]
-    # (1) equalities, (2) inequalities of the program as stated
+    # (1) equalities, (2) inequalities of the program as stated. With the default parameters: the margins of the statement.
+    # With a non-default epsilon the residual test no longer implies them; what is left is `program_t::feasible`
+    # (1e-8 on the rows normalised by max(1e-3, |A|_F, |b|_2)), i.e. with the 100x allowance 1e-6 (1 + |b|_inf + |A|_F).
+    default = not c["pars"]
+    eps = 1e-10 if default else c["pars"][4]
+    fro = lambda M: math.sqrt(sum(float(t) ** 2 for rr in M for t in rr))
     if Ps["b"]:
         dev = max(abs(a - bb) for a, bb in zip(xmv(Ps["A"], x), Ps["b"]))
-        lim = 1e-6 * (1 + max(abs(float(t)) for t in Ps["b"]))
+        lim = 1e-6 * (1 + max(abs(float(t)) for t in Ps["b"]) + (0.0 if default else fro(Ps["A"])))
         if dev > lim:
             return f"[{key_of(rk, 'feas-eq')}] converged with |Ax-b|_inf = {float(dev):.3e} > {lim:.3e}"
     if Ps["h"]:
         dev = max(a - hh for a, hh in zip(xmv(Ps["G"], x), Ps["h"]))
-        lim = 1e-6 * (1 + max(abs(float(t)) for t in Ps["h"]))
+        lim = 1e-6 * (1 + max(abs(float(t)) for t in Ps["h"]) + (0.0 if default else fro(Ps["G"])))
         if dev > lim:
             return f"[{key_of(rk, 'feas-ineq')}] converged with max(Gx-h) = {float(dev):.3e} > {lim:.3e}"
     # (3) reported objective
@@ -472,7 +483,7 @@ def oracle(aug, res):
     # (4) optimality
     M = max(1e-3, math.sqrt(sum(float(q) ** 2 for rr in (Ps["Q"] or []) for q in rr)), math.sqrt(sum(float(t) ** 2 for t in Ps["c"])))
     dist = math.sqrt(sum(float(a - b) ** 2 for a, b in zip(x, xs)))
-    bound = 1e-8 * M * (1 + dist + sum(abs(t) for t in r["u"]) + sum(abs(t) for t in r["v"]))
+    bound = 100 * eps * M * (1 + dist + sum(abs(t) for t in r["u"]) + sum(abs(t) for t in r["v"]))  # 1e-8 M (..) by default
     if abs(float(fx - fs)) > bound:
         return (f"[{key_of(rk, 'gap-bound')}] converged with f(x) - f* = {float(fx - fs):.6e} (f* = {float(fs)!r}), "
                 f"allowed {bound:.3e} (M = {M:.3e}, |x-x*| = {dist:.3e})")
@@ -868,11 +879,21 @@ def restatement(rng, case, kind):
     raise ValueError(kind)
 
 
+def rnd_pars(rng):
+    """non-default solver parameters `s0 miu alpha beta epsilon epsilon0` (inside the domains solver_t registers)"""
+    return [rng.choice([0.9, 0.99, 0.999]), rng.choice([2.0, 10.0, 100.0]), rng.choice([1e-4, 1e-2, 1e-1]),
+            rng.choice([0.5, 0.9]), rng.choice([1e-3, 1e-3, 1e-6, 1e-8, 1e-10]), rng.choice([1e-16, 1e-12])]
+
+
 def with_restatements(rng, case, count):
     """the op lines of one base program: as stated + `count` applicable restatements (None = all)"""
     out = []
-    kinds = [k for k in RKINDS[1:]]
-    kinds = rng.shuffle(kinds)
+    if rng.chance(0.15):
+        case = dict(case); case["pars"] = rnd_pars(rng)
+    # the equality restatements apply to fewer programs: try them first half of the time
+    eqk = rng.shuffle(["dupeq", "combeq", "mixeq", "scaleeq"])
+    oth = rng.shuffle(["scaleineq", "scaleobj", "permvars", "permrows"])
+    kinds = (eqk + oth) if rng.chance(0.5) else rng.shuffle(eqk + oth)
     done = 0
     for kind in ["none"] + kinds:
         if count is not None and kind != "none" and done >= count:
@@ -924,6 +945,13 @@ def gen(rng, tier):
 
 
 # ---------------------------------------------------------------------------------------------------------
+# regenerated fragment: `program_t::feasible` and the status decision of `solver_t::done` (Gen/ProgramDone.lean)
+
+def translate():
+    return c04_translate.translate()
+
+
+# ---------------------------------------------------------------------------------------------------------
 # bookkeeping
 
 def nontrivial(op):
@@ -950,9 +978,24 @@ def distribution(ops):
     return d
 
 
+def stage2_failed_at_end(aug):
+    """the trace ends `I x u v, S .., D x u v` with the same point: stage 2 ran out of trials and `done` was called on the
+    state of the last trial point (solver.cpp:346-354)"""
+    try:
+        recs = parse(aug)["recs"]
+    except Exception:
+        return False
+    return (len(recs) >= 3 and recs[-1][0] == "D" and recs[-2][0] == "S" and recs[-3][0] == "I"
+            and recs[-1][1:] == recs[-3][1:])
+
+
 def classify(op, kind, detail):
     if kind == "oracle" and detail.startswith("["):
-        return detail[1:detail.index("]")]
+        key = detail[1:detail.index("]")]
+        if key.endswith("reported-fx") and stage2_failed_at_end(op):
+            # one call site whatever the restatement: fx/eta/residuals of the last trial point are returned with the old x
+            return "reported-fx:stage2-failed-trial-state"
+        return key
     if kind == "corr":
         return "corr"
     return kind
